@@ -408,9 +408,11 @@ def free_of_forks(e, sx=None):
                 return False
             if chain(n.func) == "divmod" and len(n.args) == 2 and not n.keywords:
                 return False
+            if sx is not None and sx._aggregate(n) is not None:
+                return False
             if sx is not None and sx._inlinable(n):
                 return False
-        if sx is not None and sx.value_types and isinstance(n, ast.Attribute) and sx._typed_prop(n) is not None:
+        if sx is not None and isinstance(n, ast.Attribute) and sx._typed_prop(n) is not None:
             return False
     return True
 
@@ -439,6 +441,7 @@ class SymExec:
         self._depth = _depth
         self._defs_now = {}
         self._env_now = {}
+        self._objs_now = {}
         self._inl_cache = {}
         # expression texts X whose value is None or a non-empty tuple: truth(X) is the same fact as `X is not None`
         self.nonempty_when_set = set()
@@ -520,6 +523,8 @@ class SymExec:
             return None if v is None else (v == a[2])
         _, qk, q, s, c, op = a
         lo, hi, ex, _label = facts.iv.get(qk) or _default_iv(q, self.domains)
+        ilo, ihi = self._implied(q, facts)
+        lo, hi = max(lo, ilo), min(hi, ihi)
         if op == "lt":
             if s > 0:  # q < -c  <=>  q <= T
                 T = math.ceil(-c) - 1
@@ -590,7 +595,94 @@ class SymExec:
             return None
         iv = dict(facts.iv)
         iv[qk] = (lo, hi, ex, label)
-        return Facts(facts.atoms, iv)
+        nf = Facts(facts.atoms, iv)
+        if self._distances(nf) is None:
+            return None  # e.g. a <= b, b <= 1024, a >= 1025
+        return nf
+
+    # difference constraints: the facts `t1 - t2 in [lo, hi]` and `t in [lo, hi]` (t a term: monomial with its
+    # coefficient) form a graph whose shortest paths are the bounds that follow by transitivity
+    @staticmethod
+    def _diff_form(q):
+        """q = +t1 - t2 or q = +t1  ->  (t1, t2 | None), else None"""
+        items = list(q.t.items())
+        if len(items) == 1 and items[0][1] > 0:
+            return (items[0], None)
+        if len(items) == 2:
+            (m1, c1), (m2, c2) = items
+            if c1 > 0 > c2:
+                return ((m1, c1), (m2, -c2))
+            if c2 > 0 > c1:
+                return ((m2, c2), (m1, -c1))
+        return None
+
+    def _distances(self, facts):
+        """all-pairs shortest paths of the difference-constraint graph; None when it has a negative cycle (the facts
+        are contradictory)"""
+        edges = {}
+        nodes = {None}
+
+        def edge(a, b, w):
+            # b - a <= w
+            if w == INF:
+                return
+            nodes.add(a)
+            nodes.add(b)
+            if edges.get((a, b), INF) > w:
+                edges[(a, b)] = w
+
+        def term_default(t):
+            mono, coef = t
+            if coef == 1 and len(mono) == 1 and mono[0][1] == 1:
+                name = mono[0][0]
+                if name.startswith("len("):
+                    edge(t, None, 0)  # 0 - t <= 0
+                elif self.domains and name in self.domains:
+                    lo, hi = self.domains[name]
+                    edge(None, t, hi)
+                    edge(t, None, -lo)
+
+        for qk, (lo, hi, _ex, _label) in facts.iv.items():
+            q = Poly(dict(qk))
+            df = self._diff_form(q)
+            if df is None:
+                continue
+            t1, t2 = df
+            edge(t2, t1, hi)
+            if lo != -INF:
+                edge(t1, t2, -lo)
+            term_default(t1)
+            if t2 is not None:
+                term_default(t2)
+        if len(nodes) > 14:
+            return {}
+        nl = list(nodes)
+        d = {(a, b): (0 if a == b else edges.get((a, b), INF)) for a in nl for b in nl}
+        for k in nl:
+            for a in nl:
+                dak = d[(a, k)]
+                if dak == INF:
+                    continue
+                for b in nl:
+                    v = dak + d[(k, b)]
+                    if v < d[(a, b)]:
+                        d[(a, b)] = v
+        if any(d[(a, a)] < 0 for a in nl):
+            return None
+        return d
+
+    def _implied(self, q, facts):
+        """bounds of q that follow from the other facts by transitivity"""
+        df = self._diff_form(q)
+        if df is None or len(facts.iv) < 2:
+            return -INF, INF
+        d = self._distances(facts)
+        if not d:
+            return -INF, INF
+        t1, t2 = df
+        hi = d.get((t2, t1), INF)
+        lo = d.get((t1, t2), INF)
+        return (-lo if lo != INF else -INF), hi
 
     # ------------------------------------------------------------------ decisions
     def decide(self, e, facts):
@@ -652,6 +744,10 @@ class SymExec:
             yield from self._decide_atom(e, facts)
             return
         if isinstance(e, ast.Call):
+            agg = self._aggregate(e)
+            if agg is not None:
+                yield from self.decide(agg, facts)
+                return
             if chain(e.func) in ("any", "all") and len(e.args) == 1 and not e.keywords and isinstance(e.args[0], (ast.Tuple, ast.List)) and not any(isinstance(x, ast.Starred) for x in e.args[0].elts):
                 # every element of the display is evaluated, the result is their disjunction / conjunction
                 elts = e.args[0].elts
@@ -775,6 +871,10 @@ class SymExec:
             return
         if isinstance(e, ast.Call):
             fn = chain(e.func)
+            agg = self._aggregate(e)
+            if agg is not None:
+                yield from self.value(agg, facts)
+                return
             if fn in ("min", "max") and len(e.args) >= 2 and not e.keywords and not any(isinstance(a, ast.Starred) for a in e.args):
                 def fold(i, best, f):
                     if i == len(e.args):
@@ -804,7 +904,7 @@ class SymExec:
             if inl is not None:
                 yield from inl
                 return
-        if isinstance(e, ast.Attribute) and self.value_types:
+        if isinstance(e, ast.Attribute):
             tp = self._typed_prop(e)
             if tp is not None:
                 done = False
@@ -920,6 +1020,11 @@ class SymExec:
         a = fn.args
         if a.vararg or a.kwarg:
             return False
+        own_collections = set()
+        for n in ast.walk(fn):
+            if isinstance(n, ast.Assign) and len(n.targets) == 1 and isinstance(n.targets[0], ast.Name) and _is_mutable_ctor(n.value):
+                own_collections.add(n.targets[0].id)
+        own_collections -= {x.arg for x in a.posonlyargs + a.args + a.kwonlyargs}
 
         def ok(stmts):
             for st in stmts:
@@ -933,6 +1038,8 @@ class SymExec:
                     continue
                 if isinstance(st, ast.AnnAssign) and isinstance(st.target, ast.Name):
                     continue
+                if isinstance(st, ast.Expr) and isinstance(st.value, ast.Call) and isinstance(st.value.func, ast.Attribute) and st.value.func.attr in ("append", "extend", "add", "update") and isinstance(st.value.func.value, ast.Name) and st.value.func.value.id in own_collections:
+                    continue  # growing a collection created in this very function: no effect outside
                 if isinstance(st, ast.If):
                     if not ok(st.body) or not ok(st.orelse):
                         return False
@@ -947,6 +1054,51 @@ class SymExec:
                 return False
         return True
 
+    def _elements(self, it):
+        """the elements of an iterable that is a tuple / list display, or a local list whose contents are known on this
+        path (created by a display, grown by append / extend only)"""
+        if isinstance(it, ast.Name) and it.id in self._objs_now:
+            it = self._objs_now[it.id]
+        if isinstance(it, ast.Call) and chain(it.func) in ("list", "tuple") and not it.args and not it.keywords:
+            return []
+        if isinstance(it, (ast.Tuple, ast.List)) and not any(isinstance(x, ast.Starred) for x in it.elts):
+            return list(it.elts)
+        return None
+
+    def _aggregate(self, e):
+        """min / max / len / any / all over a collection with known elements -> the equivalent expression, else None"""
+        if not isinstance(e, ast.Call) or e.keywords or len(e.args) != 1:
+            return None
+        fn = chain(e.func)
+        a = e.args[0]
+        if fn in ("min", "max", "len"):
+            els = self._elements(a) if isinstance(a, ast.Name) else None
+            if els is None:
+                return None
+            if fn == "len":
+                return ast.Constant(value=len(els))
+            if not els:
+                return None
+            return els[0] if len(els) == 1 else ast.Call(func=e.func, args=list(els), keywords=[])
+        if fn in ("any", "all") and isinstance(a, (ast.GeneratorExp, ast.ListComp)) and len(a.generators) == 1 and not a.generators[0].is_async and isinstance(a.generators[0].target, ast.Name):
+            g = a.generators[0]
+            els = self._elements(g.iter)
+            if els is None:
+                return None
+            parts = []
+            for x in els:
+                env = {g.target.id: x}
+                conds = [_Subst(env, {}).visit(c) for c in g.ifs]
+                body = _Subst(env, {}).visit(a.elt)
+                if fn == "all":
+                    parts.append(ast.BoolOp(op=ast.Or(), values=[ast.UnaryOp(op=ast.Not(), operand=c) for c in conds] + [body]) if conds else body)
+                else:
+                    parts.append(ast.BoolOp(op=ast.And(), values=conds + [body]) if conds else body)
+            if not parts:
+                return ast.Constant(value=(fn == "all"))
+            return parts[0] if len(parts) == 1 else ast.BoolOp(op=ast.And() if fn == "all" else ast.Or(), values=parts)
+        return None
+
     def _vtype(self, e):
         for pred, ci, fields in self.value_types:
             if pred(e):
@@ -959,6 +1111,14 @@ class SymExec:
             return None
         vt = self._vtype(e.value)
         if vt is None:
+            # a side-effect-free property of the method's own class that is not part of the confirmed tree (a clean-up
+            # introduced it): `self._is_ticking` is its body `self._timeout is not None`
+            cls = getattr(self.fi, "cls", None)
+            if isinstance(e.value, ast.Name) and e.value.id == "self" and cls is not None and hasattr(cls, "qn"):
+                m = self.prog.lookup_method(cls.qn, e.attr)
+                if m is not None and m.qn not in baseline() and any(ast.unparse(d) == "property" for d in m.node.decorator_list) and self._pure_body(m.node):
+                    if not any(sc != cls.qn and e.attr in self.prog.classes[sc].methods for sc in self.prog.subclasses(cls.qn) if sc in self.prog.classes):
+                        return m
             return None
         m = vt[0].methods.get(e.attr)
         if m is None or not any(ast.unparse(d) == "property" for d in m.node.decorator_list) or not self._pure_body(m.node):
@@ -1180,6 +1340,7 @@ class SymExec:
         excs = [(d, l) for d, l in succ if l == "exc"]
         self._defs_now = st.defs
         self._env_now = st.env
+        self._objs_now = st.objs
         k = node.kind
         # exceptional continuation into a handler of this function: the statement's effect did not happen
         if self.include_exc and k in ("stmt", "return", "test", "for", "with"):
@@ -1288,7 +1449,7 @@ class SymExec:
             return
         # plain statements
         s = node.ast
-        if isinstance(s, ast.Expr):
+        if isinstance(s, ast.Expr) or (isinstance(s, (ast.Assign, ast.AnnAssign)) and s.value is not None):
             fol = self._follow_stmt(nid, s, st)
             if fol is not None:
                 for kind, st2 in fol:
@@ -1349,13 +1510,19 @@ class SymExec:
         out = []
         for v, f in vals:
             st2 = st1.but(facts=f)
-            st2 = st2.but(events=st2.events + (self._ev(st2, "expr", nid, s, value=v, raw=s.value),))
+            targets = [] if isinstance(s, ast.Expr) else (list(s.targets) if isinstance(s, ast.Assign) else [s.target])
             fo = self._followable(v)
             if fo is None:
-                for obj, name, val in _attr_stores(v):
-                    st2 = self._bind(nid, s, ast.Attribute(value=obj, attr=name, ctx=ast.Store()), val, st2, raw=None)
+                if isinstance(s, ast.Expr):
+                    st2 = st2.but(events=st2.events + (self._ev(st2, "expr", nid, s, value=v, raw=s.value),))
+                    for obj, name, val in _attr_stores(v):
+                        st2 = self._bind(nid, s, ast.Attribute(value=obj, attr=name, ctx=ast.Store()), val, st2, raw=None)
+                else:
+                    for t in targets:
+                        st2 = self._bind(nid, s, t, v, st2, raw=s.value)
                 out.append(("normal", st2))
                 continue
+            st2 = st2.but(events=st2.events + (self._ev(st2, "expr", nid, s, value=v, raw=s.value),))
             fi2, call, recv, has_self = fo
             a = fi2.node.args
             names = [x.arg for x in a.posonlyargs + a.args]
@@ -1365,6 +1532,8 @@ class SymExec:
                     env[names[0]] = recv
                 names = names[1:]
             if len(call.args) > len(names):
+                for t in targets:
+                    st2 = self._bind(nid, s, t, v, st2, raw=None)
                 out.append(("normal", st2))
                 continue
             env.update(zip(names, call.args))
@@ -1384,8 +1553,12 @@ class SymExec:
             self.followed.add(fi2.qn)
             for sp in sub.paths(facts=st2.facts, env=env, chains=st2.chains):
                 evs = tuple(Ev(x.kind, ("helper", fi2.qn, x.nid), x.node, x.env, x.chains, x.facts, target=x.target, key=x.key, value=x.value, outcome=x.outcome, raw=x.raw) for x in sp.events)
-                st3 = st2.but(facts=sp.facts, chains=sp.chains, events=st2.events + evs)
+                # the helper's nested functions / local collections can be referred to by what it returned or passed on
+                st3 = st2.but(facts=sp.facts, chains=sp.chains, events=st2.events + evs, defs=dict(sp.defs, **st2.defs), objs=dict(sp.objs, **st2.objs))
                 if sp.end in ("return", "fall"):
+                    rv = sp.ret if (sp.end == "return" and sp.ret is not None) else ast.Constant(value=None)
+                    for t in targets:
+                        st3 = self._bind(nid, s, t, rv, st3, raw=None)
                     out.append(("normal", st3))
                 elif sp.end == "raise":
                     out.append(("raise", st3))
@@ -1393,6 +1566,28 @@ class SymExec:
                     raise AnalysisError("helper %s: loop in the path model" % fi2.short)
             self.followed |= sub.followed
         return out
+
+    def _grow(self, v, st):
+        """a method call on a local list / set created in this function: its contents stay known while it only grows"""
+        if not (isinstance(v, ast.Call) and isinstance(v.func, ast.Attribute) and isinstance(v.func.value, ast.Name) and v.func.value.id in st.objs):
+            return st
+        name = v.func.value.id
+        cur = st.objs[name]
+        if isinstance(cur, ast.Call) and chain(cur.func) in ("list", "set") and not cur.args and not cur.keywords:
+            cur = ast.List(elts=[], ctx=ast.Load()) if chain(cur.func) == "list" else ast.Set(elts=[])
+        new = None
+        if isinstance(cur, (ast.List, ast.Set)) and not v.keywords:
+            if v.func.attr in ("append", "add") and len(v.args) == 1 and not isinstance(v.args[0], ast.Starred):
+                new = type(cur)(elts=list(cur.elts) + [v.args[0]], **({"ctx": ast.Load()} if isinstance(cur, ast.List) else {}))
+            elif v.func.attr in ("extend", "update") and len(v.args) == 1 and isinstance(v.args[0], (ast.List, ast.Tuple)) and not any(isinstance(x, ast.Starred) for x in v.args[0].elts):
+                new = type(cur)(elts=list(cur.elts) + list(v.args[0].elts), **({"ctx": ast.Load()} if isinstance(cur, ast.List) else {}))
+        if new is None:
+            if v.func.attr in ("copy", "count", "index", "get", "keys", "items", "values", "__contains__", "__len__"):
+                return st
+            new = ast.Call(func=ast.Name(id="<changed>", ctx=ast.Load()), args=[cur], keywords=[])  # contents no longer known
+        objs = dict(st.objs)
+        objs[name] = new
+        return st.but(objs=objs)
 
     def _pre(self, raw, st, nid, node):
         """resolve an expression about to be evaluated.  Assignment expressions in it are bindings made on the way:
@@ -1476,6 +1671,7 @@ class SymExec:
             for v, f in self.value(e, st.facts):
                 st2 = st.but(facts=f)
                 st2 = st2.but(events=st2.events + (self._ev(st2, "expr", nid, s, value=v, raw=s.value),))
+                st2 = self._grow(v, st2)
                 # attribute stores spelled as calls: setattr(x, "a", v), vars(x).update(a=v), x.__dict__.update(a=v)
                 for obj, name, val in _attr_stores(v):
                     st2 = self._bind(nid, s, ast.Attribute(value=obj, attr=name, ctx=ast.Store()), val, st2, raw=None)
@@ -1872,13 +2068,18 @@ class KwFlow:
         self.acc = []  # per enclosing try / with: [frame depth, joined state at the points an exception may arise]
         self.funcs = {}
         self.notes = []
+        self._unm = False
         self.callinfo = {}  # id(call node) -> what the call passes (joined over its evaluations at depth 0)
+        self.setattrs = {}  # id(setattr call) -> attribute names it is evaluated with ("?": unknown)
         self._modvals = {}
         self._plain = {}
         a0 = getattr(fi.node, "args", None)
         first = (a0.posonlyargs + a0.args)[:1] if a0 is not None else []
         is_method = getattr(fi, "cls", None) is not None and not any(ast.unparse(d) in ("staticmethod", "classmethod") for d in getattr(fi.node, "decorator_list", []))
         self.selfname = first[0].arg if (first and is_method) else None
+        self.params = set()
+        if a0 is not None:
+            self.params = {x.arg for x in a0.posonlyargs + a0.args + a0.kwonlyargs} | ({a0.vararg.arg} if a0.vararg else set()) | ({a0.kwarg.arg} if a0.kwarg else set())
         node = fi.node
         self.locals = set()
         self.untracked = set()
@@ -1926,7 +2127,9 @@ class KwFlow:
             if t and t[0] in ("keys", "maykeys"):
                 keys = frozenset(t[1])
                 vals = {k: self._from_tag(self.shape.get(k)) for k in keys}
-                heap["kw"] = _D(keys if t[0] == "keys" else frozenset(), keys, vals)
+                # "maykeys": explicit keywords (they carry a tag of their own) are certainly passed, names that can only
+                # come out of a `**mapping` possibly
+                heap["kw"] = _D(keys if t[0] == "keys" else frozenset(k for k in keys if k in self.shape), keys, vals)
                 env[a.kwarg.arg] = ("ref", "kw")
             else:
                 env[a.kwarg.arg] = TOP
@@ -1944,7 +2147,7 @@ class KwFlow:
                 universe.add(id(n))
         dead = (universe | self.cand) - self.live
         certain = {i: name for i, name in self.raised.items() if i not in self.completed}
-        return dead, certain, self.callinfo
+        return dead, certain, self.callinfo, self.setattrs
 
     def _owner(self, n):
         p = self.parents.get(id(n))
@@ -1965,11 +2168,23 @@ class KwFlow:
     # ------------------------------------------------------------------ states
     @staticmethod
     def _not_none(v):
-        return v[0] in ("nn", "obj", "tuple", "list", "keyset", "ref", "view", "func") or (v[0] == "const" and v[2] is not None)
+        return v[0] in ("nn", "obj", "tuple", "list", "keyset", "ref", "view", "func", "callable") or (v[0] == "const" and v[2] is not None) or (v[0] == "oneof" and all(x[1] is not None for x in v[1]))
+
+    @staticmethod
+    def _alts(v):
+        """the constants a value can be: {c} for a constant, the set of a "oneof", None otherwise"""
+        if v[0] == "const" and (v[2] is None or isinstance(v[2], (bool, int, str, bytes))):
+            return frozenset([(v[1], v[2])])
+        if v[0] == "oneof":
+            return v[1]
+        return None
 
     def join_val(self, a, b, sa, sb):
         if a == b:
             return a
+        xa, xb = self._alts(a), self._alts(b)
+        if xa is not None and xb is not None and len(xa | xb) <= 6:
+            return ("oneof", xa | xb)  # e.g. "block1" if c else "block2"
         if self._not_none(a) and self._not_none(b) and all(self._storable(x) for x in (a, b)):
             return NN
         for v, s in ((a, sa), (b, sb)):
@@ -2033,7 +2248,7 @@ class KwFlow:
     @staticmethod
     def _storable(v):
         """values kept inside tracked dictionaries / tuples: immutable ones"""
-        return v[0] in ("const", "obj", "top", "nn") or (v[0] == "keyset" and v[3]) or (v[0] == "tuple" and all(KwFlow._storable(x) for x in v[1]))
+        return v[0] in ("const", "obj", "top", "nn", "callable", "oneof") or (v[0] == "keyset" and v[3]) or (v[0] == "tuple" and all(KwFlow._storable(x) for x in v[1]))
 
     def to_keyset(self, v, st):
         """(must, may) of a set-like value, or None"""
@@ -2098,7 +2313,10 @@ class KwFlow:
     def truth(self, v, st):
         if v[0] == "const":
             return bool(v[2])
-        if v[0] == "func":
+        if v[0] == "oneof":
+            ts = {bool(x[1]) for x in v[1]}
+            return ts.pop() if len(ts) == 1 else None
+        if v[0] in ("func", "callable"):
             return True
         if v[0] == "obj":
             return True if v[2] else None  # an instance of a program class may define __bool__ / __len__
@@ -2123,6 +2341,13 @@ class KwFlow:
     @staticmethod
     def _identical(a, b):
         """a is b: True / False / None"""
+        if a[0] == "oneof" or b[0] == "oneof":
+            o, x = (a, b) if a[0] == "oneof" else (b, a)
+            if _is_const(x) and x[2] is None:
+                return False if all(y[1] is not None for y in o[1]) else None
+            if x[0] in ("obj", "ref", "tuple", "list", "keyset", "func", "callable"):
+                return False
+            return None
         if (a[0] == "nn" and _is_const(b) and b[2] is None) or (b[0] == "nn" and _is_const(a) and a[2] is None):
             return False
         if a[0] == "nn" or b[0] == "nn":
@@ -2140,13 +2365,18 @@ class KwFlow:
             if a[1] != b[1] or va != vb:
                 return False
             return None  # equal immutable values: identity is an implementation detail
-        if {a[0], b[0]} <= {"const", "ref", "tuple", "list", "keyset", "view", "func"} and a[0] != b[0]:
+        if {a[0], b[0]} <= {"const", "ref", "tuple", "list", "keyset", "view", "func", "callable"} and a[0] != b[0]:
             if _is_const(a) and a[2] is None or _is_const(b) and b[2] is None:
                 return False
         return None
 
     @staticmethod
     def _equal(a, b):
+        if a[0] == "oneof" or b[0] == "oneof":
+            xa, xb = KwFlow._alts(a), KwFlow._alts(b)
+            if xa is not None and xb is not None and not (xa & xb):
+                return False
+            return None
         if (a[0] == "nn" and _is_const(b) and b[2] is None) or (b[0] == "nn" and _is_const(a) and a[2] is None):
             return False  # None compares equal to None only (no class of the program overrides __eq__ to claim otherwise for bytes / numbers / strings)
         if a[0] == "nn" or b[0] == "nn":
@@ -2164,7 +2394,7 @@ class KwFlow:
                 return bool(a[2] == b[2])
             except Exception:
                 return None
-        if (_is_const(a) and a[2] is None and b[0] in ("ref", "tuple", "list", "keyset", "func")) or (_is_const(b) and b[2] is None and a[0] in ("ref", "tuple", "list", "keyset", "func")):
+        if (_is_const(a) and a[2] is None and b[0] in ("ref", "tuple", "list", "keyset", "func", "callable")) or (_is_const(b) and b[2] is None and a[0] in ("ref", "tuple", "list", "keyset", "func", "callable")):
             return False
         return None
 
@@ -2185,6 +2415,9 @@ class KwFlow:
                     return None
                 return d.has(item[2])
             return None
+        if item[0] == "oneof" and cont[0] in ("keyset", "tuple", "list", "ref", "view"):
+            rs = {self.contains(K(x[1]), cont, st) for x in item[1]}
+            return rs.pop() if len(rs) == 1 else None
         if cont[0] == "keyset":
             if cont[2] is not None and not cont[2]:
                 return False
@@ -2219,6 +2452,7 @@ class KwFlow:
             return m(e, st)
         if isinstance(e, (ast.Yield, ast.YieldFrom)):
             raise _Abort("generator")
+        self.unmodelled(st)
         for c in ast.iter_child_nodes(e):
             if isinstance(c, ast.expr):
                 self.escape_val(self.ev(c, st), st)
@@ -2297,7 +2531,15 @@ class KwFlow:
                 return ("keyset", ks, ks, True)
             return TOP
         if isinstance(v, ast.Tuple) and not any(isinstance(x, ast.Starred) for x in v.elts):
-            return ("tuple", tuple(self.static_value(x, "%s[%d]" % (tag, i)) if isinstance(x, (ast.Constant, ast.Tuple)) else TOP for i, x in enumerate(v.elts)))
+            return ("tuple", tuple(self.static_value(x, "%s[%d]" % (tag, i)) if isinstance(x, (ast.Constant, ast.Tuple, ast.Name, ast.Attribute)) else TOP for i, x in enumerate(v.elts)))
+        if isinstance(v, (ast.Name, ast.Attribute)) and chain(v):
+            # a function / class named in a module-level table: calling the table entry calls it
+            try:
+                q = self.prog.resolve_in_module(self.fi.module, chain(v))
+            except Exception:
+                q = None
+            if q in self.prog.classes or q in self.prog.funcs:
+                return ("callable", chain(v))
         return TOP
 
     @staticmethod
@@ -2380,6 +2622,11 @@ class KwFlow:
                 vv = TOP
             if _is_const(kv) and isinstance(kv[2], (str, int, bytes)) :
                 d = d.with_key(kv[2], vv)
+            elif kv[0] == "oneof" and all(isinstance(x[1], (str, int, bytes)) and not isinstance(x[1], bool) for x in kv[1]):
+                alt = None
+                for _t, x in sorted(kv[1], key=repr):
+                    alt = d.with_key(x, vv) if alt is None else _D.join(alt, d.with_key(x, vv))
+                d = alt
             else:
                 d = d.with_unknown_key()
         oid = "dict@%d" % id(e)
@@ -2442,6 +2689,7 @@ class KwFlow:
         return None
 
     def _comp(self, e, st):
+        self.unmodelled(st)
         lazy = isinstance(e, ast.GeneratorExp) and not self._consumed_at_once(e)
         pure = self._comp_pure(e, st)
         gens = e.generators
@@ -2538,6 +2786,7 @@ class KwFlow:
         return ("func", id(e))
 
     def ev_Await(self, e, st):
+        self.unmodelled(st)
         if isinstance(e.value, ast.Call):
             return self.ev_Call(e.value, st, awaited=True)
         self.escape_val(self.ev(e.value, st), st)
@@ -2551,6 +2800,7 @@ class KwFlow:
         v = self.ev(e.value, st)
         # a bound method / attribute of a tracked value taken as a value
         self.escape_val(v, st)
+        self.unmodelled(st)
         return TOP
 
     def forget_self(self, st):
@@ -2587,6 +2837,7 @@ class KwFlow:
         return self._plain[attr]
 
     def ev_JoinedStr(self, e, st):
+        self.unmodelled(st)
         for c in e.values:
             if isinstance(c, ast.FormattedValue):
                 self.escape_val(self.ev(c.value, st), st)
@@ -2598,6 +2849,8 @@ class KwFlow:
 
     def ev_UnaryOp(self, e, st):
         v = self.ev(e.operand, st)
+        if v[0] not in ("const", "obj", "tuple", "ref", "func", "callable", "keyset", "list"):
+            self.unmodelled(st)  # __bool__ / __neg__ of an unknown object
         if isinstance(e.op, ast.Not):
             t = self.truth(v, st)
             return TOP if t is None else K(not t)
@@ -2612,6 +2865,8 @@ class KwFlow:
     def ev_BinOp(self, e, st):
         l = self.ev(e.left, st)
         r = self.ev(e.right, st)
+        if not (_is_const(l) and _is_const(r)):
+            self.unmodelled(st)
         if _is_const(l) and _is_const(r) and type(l[2]) is type(r[2]) and isinstance(l[2], (int, str, bytes)) and not isinstance(l[2], bool):
             try:
                 if isinstance(e.op, ast.Add):
@@ -2730,6 +2985,8 @@ class KwFlow:
         for op, c in zip(e.ops, e.comparators):
             right = self.ev(c, st)
             r = None
+            if not isinstance(op, (ast.Is, ast.IsNot)) and not ((_is_const(left) or left[0] == "obj") and (right[0] in ("const", "obj", "tuple", "keyset", "ref", "view", "list"))):
+                self.unmodelled(st)  # __eq__ / __lt__ / __contains__ of an unknown object
             if isinstance(op, ast.Is):
                 r = self._identical(left, right)
             elif isinstance(op, ast.IsNot):
@@ -2765,6 +3022,8 @@ class KwFlow:
         key = self.ev(e.slice, st)
         if recv[0] == "ref":
             return self.dict_get(recv, key, st, strict=True)
+        if not (recv[0] in ("tuple", "list") and _is_const(key) and isinstance(key[2], int) and not isinstance(key[2], bool) and -len(recv[1]) <= key[2] < len(recv[1])):
+            self.unmodelled(st)
         if recv[0] in ("tuple", "list") and _is_const(key) and isinstance(key[2], int) and not isinstance(key[2], bool) and -len(recv[1]) <= key[2] < len(recv[1]):
             return recv[1][key[2]]
         return TOP
@@ -2784,10 +3043,13 @@ class KwFlow:
         """d[k] (strict) / d.get(k, default) / d.pop(k[, default])"""
         d = st.heap.get(recv[1])
         if d is None or d.esc:
+            self.unmodelled(st)
             return TOP
         if self._hkey(key):
             k = key[2]
             h = d.has(k)
+            if h is None and strict:
+                self.unmodelled(st)  # may or may not raise KeyError
             v = d.val(k)
             if remove:
                 st.heap[recv[1]] = d.without(k)
@@ -2802,6 +3064,7 @@ class KwFlow:
             dv = default if default is not None else K(None)
             return v if v == dv else TOP
         # unknown key
+        self.unmodelled(st)
         if d.may is not None and not d.may:
             if strict:
                 raise _AbsRaise("KeyError", st)
@@ -2957,8 +3220,32 @@ class KwFlow:
                         return True
         return False
 
+    def _follow(self, e, st, awaited):
+        """a call of a function of the program that is handed a tracked dictionary / list / local function: evaluated in
+        place (what it does to that object is then known) -> (True, value) or (False, None)"""
+        if self.depth >= self.MAX_DEPTH or any(isinstance(a, ast.Starred) for a in e.args) or any(k.arg is None for k in e.keywords):
+            return False, None
+        if not any(isinstance(n, ast.Name) and st.env.get(n.id, TOP)[0] in ("ref", "view", "list", "keyset", "func") for a in list(e.args) + [k.value for k in e.keywords] for n in ast.walk(a)):
+            return False, None
+        pc = self.program_callee(e, st, awaited)
+        if pc is None:
+            return False, None
+        node, skip = pc
+        self.funcs[id(node)] = node
+        if isinstance(e.func, ast.Attribute):
+            self.ev(e.func.value, st)
+        return True, self.inline(("func", id(node)), e, st, awaited, closure=False, skip_first=skip)
+
     def _ev_call(self, e, st, awaited=False):
         f = e.func
+        if isinstance(f, (ast.Name, ast.Attribute)):
+            done, val = self._follow(e, st, awaited)
+            if done:
+                return val
+        # every call is an operation that may raise anything -- except the methods of a tracked dictionary (exact) and
+        # local functions evaluated in place (their own statements speak for themselves)
+        if not (isinstance(f, ast.Attribute) and isinstance(f.value, ast.Name) and st.env.get(f.value.id, TOP)[0] == "ref" and f.attr in ("get", "pop", "setdefault", "keys", "items", "values", "copy", "clear", "__contains__")) and not (isinstance(f, ast.Name) and st.env.get(f.id, TOP)[0] == "func"):
+            self.unmodelled(st)
         if isinstance(f, ast.Attribute):
             recv = self.ev(f.value, st)
             if recv[0] == "ref":
@@ -2995,6 +3282,14 @@ class KwFlow:
             if fv[0] == "func":
                 return self.inline(fv, e, st, awaited)
             shadow = f.id in st.env or f.id in self.locals
+            if shadow and self.depth == 0 and f.id not in self.params:
+                # a call through a local variable: which function it is (a table entry) or that it is not known
+                vals = self.call_args(e, st)
+                for v in vals:
+                    self.escape_val(v, st)
+                rec = self.callinfo.setdefault(id(e), {"pos": None, "kw": {}, "dstar": []})
+                rec.setdefault("func", set()).add(fv[1] if fv[0] == "callable" else "?")
+                return TOP
             if not shadow and f.id in _PURE_BUILTINS:
                 vals = self.call_args(e, st)
                 if f.id == "len" and len(vals) == 1:
@@ -3047,6 +3342,9 @@ class KwFlow:
             if not shadow and f.id == "setattr" and len(e.args) == 3 and not e.keywords:
                 vals = self.call_args(e, st)
                 self.escape_val(vals[2], st)
+                if self.depth == 0:
+                    nm = vals[1]
+                    self.setattrs.setdefault(id(e), set()).add(nm[2] if _is_const(nm) and isinstance(nm[2], str) else "?")
                 return K(None)
             if not shadow and f.id == "getattr" and len(e.args) in (2, 3) and not e.keywords:
                 vals = self.call_args(e, st)
@@ -3104,6 +3402,8 @@ class KwFlow:
     def _join_rec(a, b):
         """what a call site passes, over several evaluations of it"""
         out = {"pos": None, "kw": {}, "dstar": []}
+        if "func" in a or "func" in b:
+            out["func"] = set(a.get("func", ())) | set(b.get("func", ()))
         if a["pos"] is not None and b["pos"] is not None and len(a["pos"]) == len(b["pos"]):
             out["pos"] = [x if x == y else TOP for x, y in zip(a["pos"], b["pos"])]
         for k in set(a["kw"]) | set(b["kw"]):
@@ -3152,13 +3452,61 @@ class KwFlow:
         st.heap[oid] = d
         return ("ref", oid)
 
-    def inline(self, fv, call, st, awaited):
+    def program_callee(self, call, st, awaited):
+        """The function of the program (same module) that the call certainly runs -- `f(..)`, `self.m(..)`, `cls.m(..)`,
+        `Class.m(..)` without dynamic dispatch, decorators (other than staticmethod / classmethod), generators -- or None.
+        -> (def node, skip first parameter?)"""
+        f = call.func
+        prog, fi = self.prog, self.fi
+        target = None
+        bound = False
+        try:
+            if isinstance(f, ast.Name):
+                if f.id in st.env or f.id in self.locals:
+                    return None
+                q = prog.resolve_in_module(fi.module, f.id)
+                cf = prog.funcs.get(q)
+                if cf is not None and cf.cls is None:
+                    target = cf
+            elif isinstance(f, ast.Attribute) and isinstance(f.value, ast.Name):
+                cls = getattr(fi, "cls", None)
+                g = fi
+                while cls is None and getattr(g, "parent", None) is not None:
+                    g = g.parent
+                    cls = getattr(g, "cls", None)
+                cq = None
+                if f.value.id == self.selfname and self.depth == 0 and cls is not None:
+                    cq, bound = cls.qn, True
+                elif f.value.id not in st.env and f.value.id not in self.locals:
+                    q = prog.resolve_in_module(fi.module, f.value.id)
+                    if q in prog.classes:
+                        cq = q
+                if cq is not None:
+                    m = prog.lookup_method(cq, f.attr)
+                    if m is not None and not any(sc != cq and f.attr in prog.classes[sc].methods for sc in prog.subclasses(cq) if sc in prog.classes):
+                        target = m
+        except Exception:
+            return None
+        if target is None or target.module is not fi.module or not isinstance(target.node, (ast.FunctionDef, ast.AsyncFunctionDef)):
+            return None
+        node = target.node
+        decos = {ast.unparse(d) for d in node.decorator_list}
+        if decos - {"staticmethod", "classmethod"}:
+            return None
+        if isinstance(node, ast.AsyncFunctionDef) and not awaited:
+            return None
+        skip = (bound and "staticmethod" not in decos) or ("classmethod" in decos)
+        if not bound and target.cls is not None and not decos:
+            return None  # Class.method(obj, ..): the explicit receiver is passed positionally; not followed
+        return node, skip
+
+    def inline(self, fv, call, st, awaited, closure=True, skip_first=False):
         node = self.funcs[fv[1]]
         is_lambda = isinstance(node, ast.Lambda)
         a = node.args
         bad = self.depth >= self.MAX_DEPTH or a.vararg or a.kwarg or any(isinstance(x, ast.Starred) for x in call.args) or any(k.arg is None for k in call.keywords)
         if not is_lambda:
-            bad = bad or node.decorator_list or (isinstance(node, ast.AsyncFunctionDef) and not awaited)
+            bad = bad or (node.decorator_list and closure) or (isinstance(node, ast.AsyncFunctionDef) and not awaited)
             bad = bad or any(isinstance(n, (ast.Yield, ast.YieldFrom)) for n in _walk_own(node))
         vals = [self.ev(x, st) for x in call.args] if not bad else None
         if bad:
@@ -3167,10 +3515,17 @@ class KwFlow:
                 self.escape_val(v, st)
             return TOP
         names = [x.arg for x in a.posonlyargs + a.args]
+        first = None
+        if skip_first and names:
+            first, names = names[0], names[1:]
         if len(vals) > len(names):
             self.escape_val(fv, st)
+            for v in vals:
+                self.escape_val(v, st)
             return TOP
         bound = dict(zip(names, vals))
+        if first is not None:
+            bound[first] = TOP
         for k in call.keywords:
             bound[k.arg] = self.ev(k.value, st)
         allp = a.posonlyargs + a.args
@@ -3197,7 +3552,7 @@ class KwFlow:
                     own.add(n.name)
         own -= nonloc
         saved = st.env
-        env = {k: v for k, v in saved.items() if k not in own}
+        env = {k: v for k, v in saved.items() if k not in own} if closure else {}
         env.update(bound)
         st.env = env
         self.frames.append(saved)
@@ -3276,14 +3631,23 @@ class KwFlow:
         out.next = cur
         return out
 
+    _SIMPLE = (ast.Expr, ast.Assign, ast.AnnAssign, ast.AugAssign, ast.Return, ast.Delete, ast.Pass, ast.Break, ast.Continue, ast.Global, ast.Nonlocal)
+
     def stmt(self, s, st):
+        """execute one statement.  An enclosing try / with learns the states in which an exception may arise here: for a
+        simple statement made only of operations the analysis models exactly (names, constants, operations on tracked
+        dictionaries whose outcome is certain, identity tests) there is none besides the certain raises."""
         self.tick()
         self.live.add(id(s))
-        self.note_exc(st)
+        simple = isinstance(s, self._SIMPLE)
+        if not simple:
+            self.note_exc(st)
+        saved_unm, self._unm = self._unm, False
         m = getattr(self, "do_" + type(s).__name__, None)
         out = _Out()
         try:
             if m is None:
+                self.unmodelled(st)
                 out = self.havoc(s, st)
             else:
                 r = m(s, st)
@@ -3291,15 +3655,26 @@ class KwFlow:
                     out = r
                 else:
                     out.next = st
-            if out.next is not None:
+            if self.depth == 0:
                 self.completed.add(id(s))
         except _AbsRaise as r:
-            self.raised.setdefault(id(s), r.name)
+            if self.depth == 0:
+                self.raised.setdefault(id(s), r.name)
             out = _Out()
             out.exc = r.st
             self.note_exc(r.st)
-        self.note_exc(out.next)
+        if not simple or self._unm:
+            self.note_exc(out.next)
+            for k in ("ret", "brk", "cont"):
+                if simple and getattr(out, k) is not None:
+                    self.note_exc(getattr(out, k))
+        self._unm = saved_unm or self._unm
         return out
+
+    def unmodelled(self, st):
+        """an operation that may raise something the analysis does not model is about to be evaluated in state st"""
+        self._unm = True
+        self.note_exc(st)
 
     def havoc(self, s, st):
         for n in ast.walk(s):
@@ -3349,6 +3724,7 @@ class KwFlow:
                 self.assign(x.value if isinstance(x, ast.Starred) else x, xv, st)
             return
         if isinstance(t, ast.Attribute):
+            self.unmodelled(st)  # a property setter may run
             if isinstance(t.value, ast.Name) and t.value.id == self.selfname and self.depth > 0:
                 st.env.pop("." + t.attr, None)
             if isinstance(t.value, ast.Name) and t.value.id == self.selfname and self.depth == 0 and t.value.id in st.env and st.env[t.value.id] == TOP:
@@ -3367,13 +3743,21 @@ class KwFlow:
                 self.escape_val(v, st)
                 return
             key = self.ev(t.slice, st)
+            if recv[0] != "ref":
+                self.unmodelled(st)
             if recv[0] == "ref":
                 d = st.heap.get(recv[1])
                 if not self._storable(v):
                     self.escape_val(v, st)
                     v = TOP
                 if d is not None:
-                    st.heap[recv[1]] = d.with_key(key[2], v) if self._hkey(key) else d.with_unknown_key()
+                    if key[0] == "oneof" and all(isinstance(x[1], (str, int, bytes)) and not isinstance(x[1], bool) for x in key[1]):
+                        alt = None
+                        for _t, x in sorted(key[1], key=repr):
+                            alt = d.with_key(x, v) if alt is None else _D.join(alt, d.with_key(x, v))
+                        st.heap[recv[1]] = alt
+                    else:
+                        st.heap[recv[1]] = d.with_key(key[2], v) if self._hkey(key) else d.with_unknown_key()
                 return
             self.escape_val(v, st)
             return
@@ -3440,6 +3824,8 @@ class KwFlow:
 
     def do_Delete(self, s, st):
         for t in s.targets:
+            if not (isinstance(t, ast.Subscript) and not isinstance(t.slice, ast.Slice)):
+                self.unmodelled(st)
             if isinstance(t, ast.Name):
                 st.env.pop(t.id, None)
             elif isinstance(t, ast.Subscript) and not isinstance(t.slice, ast.Slice):
@@ -3447,6 +3833,8 @@ class KwFlow:
                 key = self.ev(t.slice, st)
                 if recv[0] == "ref":
                     self.dict_get(recv, key, st, strict=True, remove=True)
+                else:
+                    self.unmodelled(st)
             else:
                 for c in ast.iter_child_nodes(t):
                     if isinstance(c, ast.expr):
@@ -3529,8 +3917,26 @@ class KwFlow:
     def do_For(self, s, st):
         it = self.ev(s.iter, st)
         elems = self.iter_elems(s.iter, it, st)
-        out = _Out()
         if elems is not None and len(elems) <= self.MAX_UNROLL:
+            return self._unrolled(s, st, elems)
+        if it[0] == "func":
+            self.escape_val(it, st)
+        cands = self._comp_elems(it, st, True) if it[0] in ("ref", "view", "keyset") else None
+        if cands is not None and 1 <= len(cands) <= 4 and all(c for c, _el in cands):
+            # every element is certainly there, only the order is unknown: all orders, joined
+            import itertools
+            res = None
+            for perm in itertools.permutations([el for _c, el in cands]):
+                o = self._unrolled(s, st.copy(), list(perm))
+                res = o if res is None else self.merge(res, o)
+            return res
+        if cands is not None and len(cands) <= 4 * self.MAX_UNROLL:
+            return self.loop(s, st, None, [el for _c, el in cands])
+        return self.loop(s, st, None)
+
+    def _unrolled(self, s, st, elems):
+        out = _Out()
+        if True:
             cur = st
             for el in elems:
                 if cur is None:
@@ -3554,17 +3960,15 @@ class KwFlow:
             out.next = self.join(nxt, out.brk)
             out.brk = brk2
             return out
-        if it[0] == "func":
-            self.escape_val(it, st)
-        return self.loop(s, st, None)
 
     do_AsyncFor = do_For
 
     def do_While(self, s, st):
         return self.loop(s, st, s.test)
 
-    def loop(self, s, st, test):
-        """fixed point over the loop head"""
+    def loop(self, s, st, test, cands=None):
+        """fixed point over the loop head.  `cands`: the possible elements of a `for` loop over an unordered / partly
+        known collection -- every round runs the body once per candidate and joins (any order, any multiplicity)"""
         out = _Out()
         head = st
         exits = None
@@ -3572,6 +3976,24 @@ class KwFlow:
             h = head.copy()
             exit_here = None
             body_in = h
+            if test is None and cands:
+                exits = self.join(exits, h.copy())
+                back = None
+                for el in cands:
+                    hc = head.copy()
+                    self.assign(s.target, el, hc)
+                    o = self.block(s.body, hc)
+                    out.ret = self.join(out.ret, o.ret)
+                    out.exc = self.join(out.exc, o.exc)
+                    out.brk = self.join(out.brk, o.brk)
+                    back = self.join(back, self.join(o.next, o.cont))
+                if back is None:
+                    break
+                new_head = self.join(head, back)
+                if new_head == head:
+                    break
+                head = new_head
+                continue
             if test is not None:
                 tv = self.ev(test, h)
                 t = self.truth(tv, h)
@@ -4040,15 +4462,87 @@ def _shaped_call(self, fi, call, shape, st):
     `f(a.., b.., k=.., k2=..)`: the engine would treat the local name as an unknown external callable and not look
     into f at all."""
     g = call.func
+    cur = self._cur
+    if isinstance(g, ast.Name) and g.id == "setattr" and len(call.args) == 3 and cur is not None and len(cur) > 3 and fi is self._cur_fi:
+        names = cur[3].get(id(call))
+        if names and "?" not in names:
+            # setattr(obj, <one of these names>, v) on an object without instance dictionary (__slots__ all the way
+            # up): a name that is neither a slot nor a class attribute raises AttributeError
+            extra = set()
+            for t in sorted(self.res.infer(fi, call.args[0])):
+                known, closed = set(), True
+                for k in self.prog.mro(t):
+                    ci = self.prog.classes.get(k)
+                    if ci is None:
+                        closed = closed and k in ("object", "builtins.object")
+                        continue
+                    if "__slots__" not in ci.attrs or "__setattr__" in ci.methods:
+                        closed = False
+                    else:
+                        sl = ci.attrs["__slots__"]
+                        if isinstance(sl, (ast.List, ast.Tuple)) and all(isinstance(x, ast.Constant) for x in sl.elts):
+                            known |= {x.value for x in sl.elts}
+                        else:
+                            closed = False
+                    known |= set(ci.attrs) | set(ci.methods)
+                if closed:
+                    for nme in sorted(names - known):
+                        extra.add(_Esc("AttributeError", fi.short, call.lineno, "%s  [name %r]" % (_stmt_text(call, 60), nme)))
+            if extra:
+                return extra | _EscapeAnalysis._call(self, fi, call, shape, st)
+    unknown_local = False
+    if isinstance(g, ast.Name) and cur is not None and len(cur) > 2 and fi is self._cur_fi:
+        fs = (cur[2].get(id(call)) or {}).get("func")
+        unknown_local = bool(fs) and fs == {"?"}
+        if fs and not unknown_local:
+            # a call through a local variable that KwFlow has followed: the table entries it can be
+            out = set()
+            for a_ in call.args:
+                out |= self._expr(fi, a_.value if isinstance(a_, ast.Starred) else a_, shape, st)
+            for k_ in call.keywords:
+                out |= self._expr(fi, k_.value, shape, st)
+            for name in sorted(fs):
+                if name == "?":
+                    self.unresolved.append((fi.short, _stmt_text(call, 80)))
+                    continue
+                m = ast.Call(func=ast.parse(name, mode="eval").body, args=list(call.args), keywords=list(call.keywords))
+                ast.copy_location(m, call)
+                ast.fix_missing_locations(m)
+                out |= _EscapeAnalysis._call(self, fi, m, shape, st)
+            return out
     if isinstance(g, ast.Name) and not isinstance(fi.node, ast.Lambda):
         from ..rulekit import resolve_local
         g = resolve_local(fi.node, g)
+    if isinstance(g, (ast.IfExp, ast.BoolOp)):
+        # a callee chosen by a conditional expression: `(f if c else g)(x)` may call either
+        out = set(self._expr(fi, g.test, shape, st)) if isinstance(g, ast.IfExp) else set()
+        for alt in ([g.body, g.orelse] if isinstance(g, ast.IfExp) else list(g.values)):
+            m = ast.Call(func=alt, args=list(call.args), keywords=list(call.keywords))
+            ast.copy_location(m, call)
+            ast.fix_missing_locations(m)
+            out |= _shaped_call(self, fi, m, shape, st)
+        return out
     if isinstance(g, ast.Call) and (chain(g.func) or "").split(".")[-1] == "partial" and g.args and not any(isinstance(a, ast.Starred) for a in g.args) and not any(k.arg is None for k in g.keywords):
         later = {k.arg for k in call.keywords if k.arg is not None}
         m = ast.Call(func=g.args[0], args=list(g.args[1:]) + list(call.args), keywords=[k for k in g.keywords if k.arg not in later] + list(call.keywords))
         ast.copy_location(m, call)
         ast.fix_missing_locations(m)
+        if cur is not None and len(cur) > 2 and fi is self._cur_fi:
+            # what KwFlow knows about the arguments given at the creation of the partial and at its call
+            pi, ci = cur[2].get(id(g)), cur[2].get(id(call))
+            if pi is not None and ci is not None and pi.get("pos") is not None and ci.get("pos") is not None and not pi["dstar"] and not ci["dstar"]:
+                cur[2][id(m)] = {"pos": list(pi["pos"][1:]) + list(ci["pos"]), "kw": dict(pi["kw"], **ci["kw"]), "dstar": []}
         return _EscapeAnalysis._call(self, fi, m, shape, st)
+    if g is not call.func and isinstance(g, (ast.Attribute, ast.Name)):
+        # `f = self.handler; f(x)` is `self.handler(x)`
+        m = ast.Call(func=g, args=list(call.args), keywords=list(call.keywords))
+        ast.copy_location(m, call)
+        ast.fix_missing_locations(m)
+        return _EscapeAnalysis._call(self, fi, m, shape, st)
+    if unknown_local and isinstance(g, ast.Name):
+        # a local variable that holds some callable the analysis could not identify: say so instead of treating it as
+        # an external function that raises nothing
+        self.unresolved.append((fi.short, _stmt_text(call, 80)))
     return _EscapeAnalysis._call(self, fi, call, shape, st)
 
 
